@@ -24,6 +24,7 @@ func runC07(p *Prog, r *Report) {
 	c07R6(p, r)
 	c07R7(p, r)
 	c07R8(p, r)
+	c07R9(p, r)
 }
 
 func c07R1(p *Prog, r *Report) {
@@ -1299,4 +1300,150 @@ func builtTypesReturned(cf *FuncCtx) string {
 		out = s
 	}
 	return out
+}
+
+// c07R9: the connection a handshake hands back is the connection that is used from then on. A
+// handshake function that takes a connection and returns a connection (plus an error) may return
+// a wrapper that still holds bytes read ahead of the reply (httpproxy.ClientConnect does when the
+// server spoke first). A caller that goes on with the connection it passed in, instead of the one
+// it got back, loses exactly those bytes — only when the peer's first data arrives in the same
+// segment as the reply, which no test through the in-memory pipe produces.
+func c07R9(p *Prog, r *Report) {
+	const rule = "C07-R9"
+	r.Rule(rule, "the connection returned by a handshake is the one handed on: in a function that calls a handshake function of the module taking a connection and returning (connection, error), where some successful return of that handshake yields something other than its bare parameter, every successful return of a connection yields the handshake's result (through copies), never the connection that was passed in or any other one")
+	isConn := func(t types.Type) bool { return namedTypeName(t) == "Conn" }
+	mayWrapMemo := map[*types.Func]bool{}
+	mayWrap := func(fn *types.Func) bool {
+		if v, ok := mayWrapMemo[fn]; ok {
+			return v
+		}
+		res := false
+		defer func() { mayWrapMemo[fn] = res }()
+		if fn.Pkg() == nil || !strings.HasPrefix(fn.Pkg().Path(), modPath) {
+			return false
+		}
+		sig := fn.Type().(*types.Signature)
+		if sig.Results().Len() != 2 || !isConn(sig.Results().At(0).Type()) || sig.Results().At(1).Type().String() != "error" {
+			return false
+		}
+		var params []types.Object
+		for i := 0; i < sig.Params().Len(); i++ {
+			if isConn(sig.Params().At(i).Type()) {
+				params = append(params, sig.Params().At(i))
+			}
+		}
+		if len(params) == 0 {
+			return false
+		}
+		hc := p.CtxOfObj(fn)
+		if hc == nil {
+			return false
+		}
+		info := hc.Info()
+		for _, ret := range hc.Returns() {
+			rs, ok := hc.G.V[ret].Node.(*ast.ReturnStmt)
+			if !ok || len(rs.Results) != 2 || hc.ErrAtReturn(ret) == ErrNonNil {
+				continue
+			}
+			bare := false
+			if o := objOf(info, hc.Resolve(rs.Results[0])); o != nil {
+				for _, pr := range params {
+					if o == pr {
+						bare = true
+					}
+				}
+			}
+			if o := objOf(info, rs.Results[0]); o != nil {
+				for _, pr := range params {
+					if o == pr {
+						bare = true
+					}
+				}
+			}
+			if !bare {
+				res = true
+			}
+		}
+		return res
+	}
+	n := 0
+	for _, rel := range []string{"httpproxy", "socks5", "ssnone"} {
+		pkg := p.Pkg(rel)
+		p.AllFuncs(pkg, func(top *FuncCtx) {
+			info := top.Info()
+			var got []types.Object
+			var where []string
+			for _, fc := range allCtxs(p, top) {
+				for _, cs := range fc.CallsTo(mayWrap) {
+					where = append(where, cs.Pos())
+					if o := cs.ResultVar(0); o != nil {
+						got = append(got, o)
+					}
+				}
+			}
+			if len(where) == 0 {
+				return
+			}
+			isGot := func(o types.Object) bool {
+				for _, g := range got {
+					if o == g {
+						return true
+					}
+				}
+				return false
+			}
+			var ft *ast.FuncType
+			if top.Decl != nil {
+				ft = top.Decl.Type
+			}
+			for _, ret := range top.Returns() {
+				if top.ErrAtReturn(ret) == ErrNonNil {
+					continue
+				}
+				rs, ok := top.G.V[ret].Node.(*ast.ReturnStmt)
+				if !ok {
+					continue
+				}
+				var vals []ast.Expr
+				if len(rs.Results) > 0 {
+					vals = rs.Results
+				} else if ft != nil && ft.Results != nil {
+					for _, f := range ft.Results.List {
+						for _, nm := range f.Names {
+							vals = append(vals, nm)
+						}
+					}
+				}
+				for _, e := range vals {
+					tv := info.TypeOf(e)
+					if tv == nil || !isConn(tv) || isNilExpr(info, e) {
+						continue
+					}
+					n++
+					o := objOf(info, e)
+					okv := o != nil && isGot(o)
+					if !okv && o != nil {
+						// a local that is a plain copy of the handshake's result
+						if rhs, _, _, sole := top.SoleDefRHS(o); sole {
+							if o2 := objOf(info, rhs); o2 != nil && isGot(o2) {
+								okv = true
+							}
+						}
+					}
+					if !okv {
+						// the handshake call itself returned directly
+						if c, isCall := ast.Unparen(e).(*ast.CallExpr); isCall {
+							if fn := Callee(info, c); fn != nil && mayWrap(fn) {
+								okv = true
+							}
+						}
+					}
+					r.Check(okv, rule, fmt.Sprintf("%s:continues-with-handshake-result:%s", top.Name, roleOf(top, e)), p.posStr(rs.Pos()), "the returned connection is the handshake's result",
+						"the function performs a handshake that returns the connection to continue with ("+strings.Join(where, ", ")+") but its successful return yields "+exprStr(e)+", not that result: when the handshake wrapped the connection because the peer's first bytes arrived together with the reply, those bytes are lost")
+				}
+			}
+		})
+	}
+	r.Count("handshake_result_returns", n)
+	r.Floor(rule, 1)
 }
